@@ -1251,6 +1251,50 @@ fn main() {
 
     // ---- huge segments, triangles and rays
     let (lx, lf64, lf32): (Vec<i32>, Vec<i32>, Vec<i32>) = if th { (vec![1, 7, 13, 20, 30], vec![1, 7, 13, 20, 30, 45, 60], vec![1, 7, 13, 20]) } else { (vec![30], vec![60], vec![20]) };
+    rep.section("short segments far from the origin: projected_point / distance_to_point (X, f64, f32; 2-D and 3-D)",
+        "start = O + a, end = O + b, query = O + p with O = (2^30,..) for X, (2^27,..) for f64, (4096,..) for f32 and a, b in {-1,0,1}^D (a != b), p in {-2,0,1,3} x {-1,0,2} (x {0,1}): every coordinate is exact; the foot of the perpendicular clamped to the segment is computed exactly from the small parts; X must return it exactly, floats within 8 eps |O| (distance: plus 4 eps d); a degeneracy test that compares the squared length with a multiple of the squared COORDINATES treats these unit-sized segments as points; non-trivial: the nearest point is not start", true, false, |s| {
+        s.require_classes(&["nearest point is an interior point", "nearest point is end", "nearest point is start"]);
+        // exact reference on the small parts: t = clamp((p-a).(b-a)/|b-a|^2, 0, 1)
+        let foot = |a: &[i64], b: &[i64], p: &[i64]| -> (Vec<Q>, u8) {
+            let d: Vec<i64> = (0..a.len()).map(|i| b[i] - a[i]).collect();
+            let (num, den): (i64, i64) = ((0..a.len()).map(|i| (p[i] - a[i]) * d[i]).sum(), d.iter().map(|x| x * x).sum());
+            let t = if num <= 0 { Q::new(0, 1) } else if num >= den { Q::new(1, 1) } else { Q::new(num as i128, den as i128) };
+            let cls = if num <= 0 { 0 } else if num >= den { 2 } else { 1 };
+            ((0..a.len()).map(|i| Q::new(a[i] as i128, 1).add(t.mul(Q::new(d[i] as i128, 1)))).collect(), cls)
+        };
+        for dim in [2usize, 3] {
+            fn prod(axes: &[Vec<i64>]) -> Vec<Vec<i64>> { let mut out = vec![Vec::new()]; for ax in axes { let mut nx = Vec::new(); for pre in &out { for &v in ax { let mut q = pre.clone(); q.push(v); nx.push(q); } } out = nx; } out }
+            let small: Vec<Vec<i64>> = prod(&vec![vec![-1i64, 0, 1]; dim]);
+            let pts: Vec<Vec<i64>> = if dim == 2 { prod(&[vec![-2i64, 0, 1, 3], vec![-1, 0, 2]]) } else { prod(&[vec![-2i64, 0, 1, 3], vec![-1, 0, 2], vec![0, 1]]) };
+            for a in &small { for b in &small { if a == b { continue; } for p in &pts {
+                let (ft, cls) = foot(a, b, p);
+                s.class(["nearest point is start", "nearest point is an interior point", "nearest point is end"][cls as usize]);
+                let d2: Q = (0..dim).fold(Q::new(0, 1), |acc, i| { let e = Q::new(p[i] as i128, 1).sub(ft[i]); acc.add(e.mul(e)) });
+                let inp = || json!({"dim": dim, "start - O": a, "end - O": b, "query - O": p});
+                let wt = (a.iter().chain(b.iter()).chain(p.iter()).map(|x| x.unsigned_abs()).sum::<u64>()) as u64;
+                // exact tier
+                { let o = 1i128 << 30; let x = |v: &[i64], i: usize| qi(o + v[i] as i128);
+                  s.eval(cls != 0);
+                  let got: Option<Vec<X>> = if dim == 2 { s.call("LineSegment2::projected_point<X>", inp, || { let r = LineSegment2 { start: Vec2 { x: x(a, 0), y: x(a, 1) }, end: Vec2 { x: x(b, 0), y: x(b, 1) } }.projected_point(Vec2 { x: x(p, 0), y: x(p, 1) }); vec![r.x, r.y] }) }
+                      else { s.call("LineSegment3::projected_point<X>", inp, || { let r = LineSegment3 { start: Vec3 { x: x(a, 0), y: x(a, 1), z: x(a, 2) }, end: Vec3 { x: x(b, 0), y: x(b, 1), z: x(b, 2) } }.projected_point(Vec3 { x: x(p, 0), y: x(p, 1), z: x(p, 2) }); vec![r.x, r.y, r.z] }) };
+                  if let Some(g) = got { if (0..dim).any(|i| g[i].rat() != Q::new(o, 1).add(ft[i])) { s.violation_w(&format!("LineSegment{}::projected_point<X>", dim), "far-from-origin:not-the-nearest-point-of-the-segment", json!({"input": inp(), "got - O": (0..dim).map(|i| g[i].rat().sub(Q::new(o, 1)).to_f64()).collect::<Vec<_>>(), "want - O": ft.iter().map(|q| q.to_f64()).collect::<Vec<_>>()}), wt); } } }
+                // float tiers
+                macro_rules! ftier { ($F:ty, $o:expr, $name:literal) => {{
+                    let o: $F = $o; let f = |v: &[i64], i: usize| o + v[i] as $F;
+                    s.eval(cls != 0);
+                    let (g, dist): (Vec<$F>, $F) = if dim == 2 { let sg = LineSegment2 { start: Vec2 { x: f(a, 0), y: f(a, 1) }, end: Vec2 { x: f(b, 0), y: f(b, 1) } }; let q = Vec2 { x: f(p, 0), y: f(p, 1) }; let r = sg.projected_point(q); (vec![r.x, r.y], sg.distance_to_point(q)) }
+                        else { let sg = LineSegment3 { start: Vec3 { x: f(a, 0), y: f(a, 1), z: f(a, 2) }, end: Vec3 { x: f(b, 0), y: f(b, 1), z: f(b, 2) } }; let q = Vec3 { x: f(p, 0), y: f(p, 1), z: f(p, 2) }; let r = sg.projected_point(q); (vec![r.x, r.y, r.z], sg.distance_to_point(q)) };
+                    let tol = 8.0 * <$F>::EPSILON as f64 * o as f64;
+                    if (0..dim).any(|i| !(((g[i] - o) as f64 - ft[i].to_f64()).abs() <= tol)) { s.violation_w(&format!("LineSegment{}::projected_point<{}>", dim, $name), "far-from-origin:not-the-nearest-point-of-the-segment", json!({"input": inp(), "O": o as f64, "got - O": (0..dim).map(|i| (g[i] - o) as f64).collect::<Vec<_>>(), "want - O": ft.iter().map(|q| q.to_f64()).collect::<Vec<_>>()}), wt); }
+                    let dw = d2.to_f64().sqrt();
+                    if !((dist as f64 - dw).abs() <= tol + 4.0 * <$F>::EPSILON as f64 * dw) { s.violation_w(&format!("LineSegment{}::distance_to_point<{}>", dim, $name), "far-from-origin:wrong-distance", json!({"input": inp(), "O": o as f64, "got": dist as f64, "want": dw}), wt); }
+                }} }
+                ftier!(f64, 134217728.0, "f64"); ftier!(f32, 4096.0, "f32");
+            } } }
+        }
+        s.sample(json!({"segment": "(4096,4096)-(4097,4096) in f32", "query": "(4097,4099)", "nearest point must be": "(4097,4096), distance 3"}));
+    });
+
     rep.section("large shapes: LineSegment2/3 at scale 2^k",
         &format!("the grids of the small-shapes section with coordinates n * 2^k, k in {:?} (X), {:?} (f64), {:?} (f32); same assertions and oracles (evaluated on the integer numerators and scaled exactly; all float operations scale exactly). Violation classes carry the prefix 'large-scale:'. non-trivial: non-degenerate segment", lx, lf64, lf32),
         true, false, |s| {
